@@ -42,6 +42,8 @@ FLOORS["quick"].update({'echoed_arrivals_inside_next_hop_put': 6000})
 FLOORS["thorough"].update({'echoed_arrivals_inside_next_hop_put': 30000})
 FLOORS["quick"].update({'debug_tracing_cases': 130, 'rr_table_as_tuple_cases': 60})
 FLOORS["thorough"].update({'debug_tracing_cases': 650, 'rr_table_as_tuple_cases': 300})
+FLOORS["quick"].update({'rr_duplicate_slot_decisions': 2500})
+FLOORS["thorough"].update({'rr_duplicate_slot_decisions': 12500})
 
 
 def plan(tier):
